@@ -16,8 +16,84 @@ pub struct Snip {
   pub src: String,
 }
 
+/// syntactic forms that the rules' own test snippets rarely contain: declaration-only TypeScript (ambient declarations,
+/// overload signatures, abstract members: functions and methods **without a body**), unusual class members, modern
+/// operators, module forms.  One program each; they are also mixed into recombined programs.
+pub const ODDITIES: &[&str] = &[
+  "declare function* g1(): Generator<number>;",
+  "function* g2(a: string): Generator<string>;\nfunction* g2(a: any) { yield a; }",
+  "abstract class A1 { abstract *walk(): Generator<number>; abstract m(): void; abstract get p(): number; abstract set p(v: number); }",
+  "class C1 { *items(): Generator<number>;\n *items() { yield 1; } }",
+  "declare class D1 { constructor(x: number); m(): void; get p(): number; set p(v: number); static s: number; }",
+  "declare namespace N1 { function f(): void; const c: number; class K {} }",
+  "declare module \"m1\" { export function f(): void; export default function (): void; }",
+  "declare global { interface Window { x: number } }\nexport {};",
+  "export declare const dc: number;\nexport declare function df(): void;\nexport declare class DC {}",
+  "function over(a: string): void;\nfunction over(a: number): void;\nfunction over(a: any) {}\nover(1);",
+  "class C2 { constructor(a: string); constructor(a: any) {} m(a: string): void; m(a: any) {} }",
+  "export default function (a: string): void;\nexport default function (a: any) {}",
+  "async function af(): Promise<void>;\nasync function af() { await 1; }",
+  "declare function getter(): { get x(): number };",
+  "interface I1 { *g(): Generator; get p(): number; set p(v: number); new (): I1; (): void; [k: string]: any; readonly r?: number; }",
+  "type T1 = { m?(): void; readonly [K in keyof U]?: U[K] };\ntype T2<T> = T extends (infer R)[] ? R : never;",
+  "enum E1 { A = 1, B = A + 1, C = \"c\".length }\nconst enum E2 { X }\ndeclare enum E3 { Y }",
+  "import type { T } from \"t\";\nimport { type U, v } from \"u\";\nexport type { T };\nexport { type U };",
+  "import x = require(\"x\");\nexport = x;",
+  "export as namespace NS;\nexport * as ns from \"n\";\nexport * from \"n2\";",
+  "import def, * as all from \"m\";\nimport {} from \"e\";\nimport \"side\";\nimport j from \"./j.json\" with { type: \"json\" };",
+  "async function* ag(s: any) { for await (const v of s) yield* v; }",
+  "class C3 { static { this.x = 1; } #p = 1; static #q: number; accessor a = 1; declare d: number; static async *#g() {} get #x() { return 1; } }",
+  "class C4 extends B { override o() { super.o(); } constructor(private readonly a: number, public b?: string) { super(); } }",
+  "class C5<T> implements I { [Symbol.iterator]() {} [\"computed\"] = 1; 123() {} \"str\"() {} static name = 1; }",
+  "label: for (;;) { inner: { break inner; } continue label; }",
+  "x = new.target;\ny = import.meta.url;\nz = await import(\"m\");",
+  "a ?? b; a?.b?.[c]?.(d); a ||= b; a &&= b; a ??= b; a **= 2; a >>>= 1;",
+  "x = 1_000n; y = 0b1010; z = 0o17; w = .5e-3; v = 0xFFn;",
+  "x = /(?<n>a)\\k<n>/u; y = /[\\p{L}--[a-z]]/v; z = /a/dgimsuy;",
+  "function f(this: Window, ...rest: number[]) { return this; }",
+  "let x: typeof import(\"m\");\nlet y = <const>[\"a\"];\nlet z = a satisfies B;\na!;\nconst g = <T,>(x: T) => x;",
+  "function assertIsString(v: any): asserts v is string {}\nfunction isS(v: any): v is string { return true; }",
+  "@dec class C6 { @dec m(@dec p: any) {} @dec accessor a = 1; }",
+  "using u = f();\nasync function h() { await using v = g(); }",
+  "for (using r of rs) {}\nfor (const [a, { b = 1, ...c }] of xs) {}\nfor (x.y in z) {}\nfor (var i = 0, j = 1; ; ) break;",
+  "switch (a) { default: case 1: { let x; } case 2: }",
+  "try {} catch {} finally {}\ntry { } catch ({ message: [m] }) { }",
+  "if (a) ; else ;\nwhile (a) ;\ndo ; while (a);\nfor (;;) ;",
+  "({ __proto__: null, get a() { return 1; }, set a(v) {}, async *[Symbol.asyncIterator]() {}, ...rest, b, \"c\": 1, 2: 3, [d]: 4 });",
+  "const { a = 1, b: { c, ...d }, ...e } = o;\nconst [f, , g = 2, ...h] = p;\n[a, b] = [b, a];\n({ a, b } = o);",
+  "x = a ? b : c ? d : e;\ny = (1, 2, 3);\nz = void 0;\nw = typeof typeof a;\nv = delete a.b;\nu = a in b;\nt = a instanceof B;",
+  "tag`a${b}c${d}`;\nx = `a${`b${c}`}`;\nString.raw`\\n`;",
+  "function* gen() { const x = yield; yield* inner(); return yield 1; }",
+  "async () => { await (async () => {})(); for await (const x of y) {} };",
+  "x = class {};\ny = class Named extends (a, b) {};\nz = function* () {};\nw = async function named() {};",
+  "var v1 = 1, v2;\nlet l1, l2 = 2;\nconst c1 = 1, c2 = 2;",
+  "\"use strict\";\n\"another directive\";\n'use asm';",
+  "#!/usr/bin/env -S deno run\nconsole.log(1);",
+  "/** @jsx h */\n/** @jsxFrag Fragment */\n/** @jsxImportSource preact */\nconst e = <><a.b.c d:e=\"f\" {...g}>{/* c */}{...h}</a.b.c></>;",
+  "const e = <div data-x aria-label=\"y\" {...p} key={k}>text &amp; {\"str\"} <br/> {cond ? <a/> : null}</div>;",
+  "const e = <A<string> prop={1} />;\nconst f = <ns:tag attr:x=\"1\" />;",
+  "namespace A.B.C { export const x = 1; }\nmodule M { }",
+  "abstract class AC { protected abstract readonly x: number; private static y?: string; constructor(protected z = 1) { } }",
+  "function f<const T extends readonly unknown[]>(x: T): T { return x; }\ntype G = typeof f<string[]>;",
+  "let a: [x: number, y?: string, ...rest: boolean[]];\nlet b: new () => void;\nlet c: abstract new () => void;\nlet d: unique symbol;",
+  "let o = { m<T>(this: T) {}, async *n() {}, get [k]() { return 1; } };",
+  "export default class {}\n",
+  "export default async function* () {}\n",
+  "export { a as default, b as \"string name\" };\nimport { \"string name\" as sn } from \"m\";",
+  "if (a) function decl() {}\n",
+  "debugger;;;\n{};\n;",
+  "a\n++\nb\nreturn\n",
+  "x = a\n/re/g.test(b)\n",
+  "var \\u0061bc = 1; ab\\u{63} = 2;",
+  "var 𠮷 = 1; var ℮ = 2; var ·x = 3;",
+  "<!-- html comment\nx = 1; --> also comment\n",
+];
+
 pub fn load_corpus() -> Vec<Snip> {
   let mut v = vec![];
+  for o in ODDITIES {
+    v.push(Snip { rule: "oddity".to_string(), src: o.to_string() });
+  }
   if let Ok(s) = std::fs::read_to_string("/verif/build/corpus/snippets.jsonl") {
     for l in s.lines() {
       if let Ok(j) = serde_json::from_str::<Value>(l) {
@@ -60,6 +136,7 @@ fn lint_full(l: &Linter, src: &str, ext: &str, cfg: &Cfg) -> Full {
   }
 }
 
+const FIX_RULES: &[&str] = &["jsx-boolean-value", "jsx-curly-braces", "jsx-no-unescaped-entities", "jsx-props-no-spread-multi", "no-node-globals", "no-process-global", "no-window", "no-window-prefix", "verbatim-module-syntax"];
 const CHAR_LEVEL_RULES: &[&str] = &["prefer-ascii", "no-irregular-whitespace"];
 const DIRECTIVE_SENSITIVE: &[&str] = &["ban-untagged-ignore", "ban-unused-ignore", "ban-unknown-rule-code"];
 
@@ -176,14 +253,34 @@ pub fn run(args: &Args) {
   }
   let strata: Vec<&Vec<usize>> = by_rule.values().collect();
   out.add("rules-with-triggering-snippets", strata.len() as u64);
+  // prelude for the properties about fixes: every snippet of every fix-providing rule, with every token gap mutated
+  // (mode by turns: multi-byte white space / no white space / comment) — fixes do range arithmetic on the text
+  let mut forced: Vec<(String, String)> = vec![];
+  if !props.is_empty() && (props.contains("C03") || props.contains("C13")) {
+    let mut frng = Rng::new(args.seed ^ 0xF0CE);
+    for (i, sn) in corpus.iter().filter(|sn| FIX_RULES.contains(&sn.rule.as_str())).enumerate() {
+      let e = if sn.rule.starts_with("jsx") || sn.src.contains("</") || sn.src.contains("/>") { "tsx" } else { "ts" };
+      if let Some(m) = exotic_whitespace(&mut frng, &sn.src, e, true, Some((i + args.seed as usize) % 3)) {
+        forced.push((sn.rule.clone(), m));
+      }
+    }
+    out.add("forced-gap-mutated-fix-snippets", forced.len() as u64);
+  }
   let replay: Option<Value> = args.opts.get("replay").and_then(|p| std::fs::read_to_string(p).ok()).and_then(|s| serde_json::from_str(&s).ok());
   for case_no in 0..args.count {
     let mut crng = rng.fork();
     // the first third of the budget walks the corpus in a seed-dependent stride; the rest recombines
     let (rule, src) = if let Some(r) = &replay {
       (r["failing_input"]["rule"].as_str().unwrap_or("").to_string(), r["failing_input"]["src"].as_str().unwrap_or("").to_string())
+    } else if case_no % 3 == 0 && case_no / 3 < forced.len() {
+      out.count("kind=forced-gap-mutated");
+      forced[case_no / 3].clone()
     } else if want("C13") && !props.is_empty() && case_no % 2 == 1 {
       gen_fix_program(&mut crng)
+    } else if case_no % 11 == 5 {
+      // the oddities, in turn
+      out.count("kind=oddity");
+      ("oddity".to_string(), ODDITIES[(case_no / 11 + args.seed as usize) % ODDITIES.len()].to_string())
     } else if case_no < args.count / 2 && !strata.is_empty() {
       // round-robin over the rules, a seed-dependent triggering snippet of each
       let st = strata[case_no % strata.len()];
@@ -205,6 +302,17 @@ pub fn run(args: &Args) {
       let line = ["debugger;", "var v = 1;", "eval(\"x\");", "x == y;", "if (a) {} else {}", "new Symbol();", "for (;;) {}", "let u;"][crng.below(8)];
       let k = crng.range(110, 171);
       (rule, format!("{}\n{}\nconst nonAscii = \"é→\";\n", std::iter::repeat(line).take(k).collect::<Vec<_>>().join("\n"), src))
+    } else if crng.chance(1, 4) || (FIX_RULES.contains(&rule.as_str()) && crng.chance(1, 2)) {
+      // exotic white space between tokens: every separator the lexer accepts must do, also multi-byte ones
+      // (programs of the fix-providing rules get it every second time, in every gap: their fixes do range arithmetic)
+      let e = if rule.starts_with("jsx") || rule.starts_with("react") || src.contains("</") || src.contains("/>") { "tsx" } else { "ts" };
+      match exotic_whitespace(&mut crng, &src, e, FIX_RULES.contains(&rule.as_str()), None) {
+        Some(m) => {
+          out.count("shape=token-gap-mutation");
+          (rule, m)
+        }
+        None => (rule, src),
+      }
     } else if crng.chance(1, 5) {
       // end-of-file corner: the very last character of the file belongs to a comment / string / template /
       // identifier / white space and is not ASCII; no trailing newline
@@ -578,6 +686,53 @@ pub fn apply_fix(src: &str, changes: &[(usize, usize, String)]) -> Option<String
 
 /// LF -> CRLF for every `\n` that is not inside a string/template/regex/JSX-text token; returns the new
 /// text and the byte-offset map old -> new
+/// replace spaces that separate two tokens (gaps consisting of spaces only: no comment, no line break) by multi-byte
+/// white space characters that are valid JavaScript `WhiteSpace` (NBSP, ideographic space, ZWNBSP, en quad)
+pub fn exotic_whitespace(rng: &mut Rng, src: &str, ext: &str, every_gap: bool, force_mode: Option<usize>) -> Option<String> {
+  use deno_ast::SourceRangedForSpanned;
+  let spec = spec_for(ext);
+  let mt = deno_ast::MediaType::from_specifier(&spec);
+  let ps = deno_ast::parse_program(deno_ast::ParseParams { specifier: spec, media_type: mt, text: src.to_string().into(), capture_tokens: true, maybe_syntax: Some(deno_ast::get_syntax(mt)), scope_analysis: false }).ok()?;
+  if ps.text().as_ref() != src {
+    return None;
+  }
+  let b = ps.text_info_lazy().range().start;
+  let toks: Vec<(usize, usize)> = ps.tokens().iter().map(|t| (t.start().as_byte_index(b), t.end().as_byte_index(b))).collect();
+  let mut out = src.to_string();
+  let mut changed = false;
+  // one kind of mutation per program: multi-byte white space / no white space where it is optional / a comment
+  let mode = force_mode.unwrap_or_else(|| rng.below(3));
+  let bracket = |c: u8| b"{}()[];,".contains(&c);
+  // back to front so that offsets stay valid
+  for w in toks.windows(2).rev() {
+    let (a, z) = (w[0].1, w[1].0);
+    if z > a && src[a..z].bytes().all(|c| c == b' ') && (every_gap || rng.chance(1, 2)) {
+      match mode {
+        0 => {
+          let ws = ["\u{a0}", "\u{3000}", "\u{feff}", "\u{2000}"][rng.below(4)];
+          out.replace_range(a..z, &ws.repeat(z - a));
+        }
+        1 => {
+          // the separator is optional next to a bracket, semicolon or comma
+          let (l, r) = (src.as_bytes()[a - 1], src.as_bytes()[z]);
+          if a > 0 && (bracket(l) || bracket(r)) && l != b'/' && r != b'/' {
+            out.replace_range(a..z, "");
+          } else {
+            continue;
+          }
+        }
+        _ => out.replace_range(a..z, " /* c */ "),
+      }
+      changed = true;
+    }
+  }
+  if changed {
+    Some(out)
+  } else {
+    None
+  }
+}
+
 fn crlf_convert(ps: &ParsedSource, src: &str) -> Option<(String, Vec<usize>)> {
   use deno_ast::swc::parser::token::Token;
   use deno_ast::SourceRangedForSpanned;
